@@ -104,17 +104,29 @@ def run(ctx):
                     {"actions": x["actions"][: mm["step"]], "mismatch": mm}, clause="+".join(fields))
     # ---- malformed / well-formed frame shapes through the real Listener, judged by TLC
     cases_file, shapes = p3.generate(ctx, "Acked", {"N": "<- MC_N", "R": "2", "Faults": "0", "Retries": "<- MC_Retries"},
-                                     modules=["Acked"], tag="shapes", defs=DEFS)
+                                     modules=["Acked"], tag="shapes", defs=DEFS, env={"PASS": "shapes"})
     # (p3's wrapper extends Acked; constants come from a tiny companion module)
     from ..drive import acked
     res = acked.classify_shapes(shapes)
     resf = scratch / "shape_results.json"
     resf.write_text(json.dumps(res))
     bad = p3.judge(ctx, "Acked", {"N": "<- MC_N", "R": "2", "Faults": "0", "Retries": "<- MC_Retries"}, cases_file, resf,
-                   modules=["Acked"], tag="shapesj", defs=DEFS)
+                   modules=["Acked"], tag="shapesj", defs=DEFS, env={"PASS": "shapesj"})
     for i, names in sorted(bad.items()):
         ctx.violate("frames:" + "+".join(sorted(names)), f"Listener._recv_one on frame shape {res[i-1]['shape']} "
                     f"(seen={res[i-1]['seen']}): {sorted(names)}", {"case": res[i - 1]}, clause="+".join(sorted(names)))
+    # ---- several senders into one listener (idx counters collide across senders)
+    cf2, seqs = p3.generate(ctx, "Acked", {"N": "<- MC_N", "R": "2", "Faults": "0", "Retries": "<- MC_Retries"},
+                            modules=["Acked"], tag="senders", op="GenerateSenders", defs=DEFS, env={"PASS": "senders"})
+    res2 = acked.multi_sender(seqs)
+    rf2 = scratch / "sender_results.json"
+    rf2.write_text(json.dumps(res2))
+    bad2 = p3.judge(ctx, "Acked", {"N": "<- MC_N", "R": "2", "Faults": "0", "Retries": "<- MC_Retries"}, cf2, rf2,
+                    modules=["Acked"], tag="sendersj", op="JudgeSenders", defs=DEFS, env={"PASS": "sendersj"})
+    for i, names in sorted(bad2.items()):
+        ctx.violate("senders:" + "+".join(sorted(names)), f"one Listener, deliveries {seqs[i-1]}: {sorted(names)}; observed {res2[i-1]}",
+                    {"deliveries": seqs[i - 1], "observed": res2[i - 1]}, clause="+".join(sorted(names)))
+    ctx.coverage["multi_sender_sequences"] = len(seqs)
     ctx.coverage.update({
         "states": states, "transitions": trans, "traces_validated_against_impl": len(reps), "replayed_steps": steps,
         "frame_shapes_checked": len(res),
